@@ -59,7 +59,12 @@ for _pid, _text, _also in [
             "in-place occurrence, nothing beyond the source length; full write traces compared with the implementation.", []),
 ]:
     PROPS[_pid] = {
-        "theorems": [], "suites": ["planner", "clone"], "also": _also, "rule": _CLONE_RULE, "assumes": _CLONE_ASSUMES,
+        "theorems": {"C02": ["C02_clone_with_seeds", "C02_seeds_irrelevant"],
+                     "C03": ["C03_planner_executor_correct", "C03_inplace_exact"],
+                     "C05": ["C05_failed_write_not_ok", "C05_rerun_completes"],
+                     "C06": ["C06_fetch_exact"],
+                     "C13": ["C13_write_trace_spec"]}[_pid],
+        "suites": ["planner", "clone"], "also": _also, "rule": _CLONE_RULE, "assumes": _CLONE_ASSUMES,
         "trusted_base": [], "level_text": _text, "level_note": _CLONE_NOTE,
     }
 
